@@ -1033,6 +1033,14 @@ class Model(object):
                 if isinstance(v, int) and 0 <= v <= 0x10FFFF:
                     return chr(v)
                 return Opaque('chr')
+            if fn == 'dict' and len(node.args) == 1 and not node.keywords:
+                v = f(node.args[0])
+                if isinstance(v, (list, tuple)) and all(isinstance(x, (list, tuple)) and len(x) == 2 for x in v):
+                    try:
+                        return dict(v)
+                    except TypeError:
+                        return Opaque('unhashable key')
+                return Opaque('dict')
             if fn in ('set', 'list', 'tuple', 'frozenset') and len(node.args) == 1:
                 v = f(node.args[0])
                 if isinstance(v, (list, tuple, set, str)):
@@ -1054,6 +1062,17 @@ class Model(object):
                 if isinstance(sep, str) and isinstance(seq, (list, tuple)) and all(isinstance(x, str) for x in seq):
                     return sep.join(seq)
                 return Opaque('join')
+            if isinstance(node.func, ast.Attribute) and node.func.attr in ('encode', 'decode') and len(node.args) <= 2 \
+                    and not node.keywords:
+                base = f(node.func.value)
+                a = [f(x) for x in node.args]
+                pure = ('unicode_escape', 'unicode-escape', 'ascii', 'utf-8', 'utf8', 'latin-1', 'latin1', 'raw_unicode_escape')
+                if isinstance(base, (str, bytes)) and all(isinstance(x, str) for x in a) and (not a or a[0].lower() in pure):
+                    try:
+                        return getattr(base, node.func.attr)(*a)
+                    except (UnicodeError, LookupError) as e:
+                        return Opaque('%s raises %s' % (node.func.attr, type(e).__name__))
+                return Opaque(node.func.attr)
             if isinstance(node.func, ast.Attribute) and node.func.attr == 'split' and len(node.args) <= 1:
                 s = f(node.func.value)
                 if isinstance(s, str):
